@@ -663,13 +663,26 @@ class Check(common.Check):
         try:
             pkt = osc10.read_packet(bytes.fromhex(c['hex']))
             strict = True
-        except osc10.Osc10Error:
+            for _, a, vs in osc10.flatten(pkt):               # text must be UTF-8 (sc3 decodes it)
+                a.decode('utf-8')
+                for v in self.leaves(vs):
+                    if v[0] in 'sS':
+                        v[1].decode('utf-8')
+        except (osc10.Osc10Error, UnicodeDecodeError):
             strict = False
         if strict and not o.startswith('ok '):
             return {'what': f'well-formed OSC 1.0 datagram rejected: {o}', 'signature': 'c18:decoder-rejects'}
         if c.get('tag') == 'nothing' and o.startswith('ok ') and o != 'ok ':
             return {'what': f'undecodable datagram produced messages: {o[:120]}', 'signature': 'c18:decoder-accepts-garbage'}
         return None
+
+    @classmethod
+    def leaves(cls, vs):
+        for v in vs:
+            if v[0] == '[':
+                yield from cls.leaves(v[1])
+            else:
+                yield v
 
     # reference bookkeeping of the abstract specification
     def oracle_hist(self, c, o):
